@@ -25,15 +25,26 @@ def Refines (s : Shard) (pts : List Point) : Prop :=
   ∀ fam ser fld t, storeView s fam ser fld t = refCell (s.fieldAgg fld) pts fam ser fld t
 
 structure Inv (s : Shard) (pts : List Point) : Prop where
+  cfgFixed : s.cfg = Cfg.fixed
   wpos : 0 < s.window
   pages : PagesOK s
   distinct : Distinct s
+  fresh : ∀ k, s.nextTick ≤ k → Map.lookup s.ranges k = none
   refines : Refines s pts
 
 /-! ### write -/
 
 theorem write_window (s : Shard) (tick fam ser fld : Nat) (ft : FieldType) (slot : Nat) (v : Int) :
     (s.write tick fam ser fld ft slot v).window = s.window := rfl
+
+theorem write_cfg (s : Shard) (tick fam ser fld : Nat) (ft : FieldType) (slot : Nat) (v : Int) :
+    (s.write tick fam ser fld ft slot v).cfg = s.cfg := rfl
+
+theorem write_nextTick (s : Shard) (tick fam ser fld : Nat) (ft : FieldType) (slot : Nat) (v : Int) :
+    (s.write tick fam ser fld ft slot v).nextTick =
+      (match (s.family fam).mutable_ with
+        | some _ => s.nextTick
+        | none => s.nextTick + 1) := rfl
 
 theorem write_fieldTypes (s : Shard) (tick fam ser fld : Nat) (ft : FieldType) (slot : Nat) (v : Int)
     (h : Map.lookup s.fieldTypes fld = some ft) :
@@ -53,7 +64,7 @@ theorem write_ranges (s : Shard) (tick fam ser fld : Nat) (ft : FieldType) (slot
 theorem write_family_self (s : Shard) (tick fam ser fld : Nat) (ft : FieldType) (slot : Nat) (v : Int) :
     (s.write tick fam ser fld ft slot v).family fam =
       ⟨some ⟨(curMem s tick fam).created, Map.upsert (curMem s tick fam).pages (ser, fld)
-            (MemDB.write s.window ft.aggType (curPage s tick fam ser fld) slot v)⟩,
+            (MemDB.writeV s.cfg s.window ft.aggType (curPage s tick fam ser fld) slot v)⟩,
         (s.family fam).files, (s.family fam).base⟩ := by
   simp only [Shard.write, curMem, curPage]
   cases (s.family fam).mutable_ <;> simp [Shard.family, Map.lookup_upsert_self]
@@ -102,11 +113,18 @@ theorem inv_write (s : Shard) (pts : List Point) (hi : Inv s pts)
     (tick fam ser fld : Nat) (ft : FieldType) (slot : Nat) (v : Int)
     (hg : goodOp s (.write tick fam ser fld ft slot v) = true) :
     Inv (s.write tick fam ser fld ft slot v) (pts ++ [⟨fam, ser, fld, slot, v⟩]) := by
-  simp only [goodOp, Bool.and_eq_true, beq_iff_eq] at hg
-  obtain ⟨⟨hft, hstep⟩, htick⟩ := hg
+  simp only [goodOp, beq_iff_eq] at hg
+  have hft := hg
+  have hwv : MemDB.writeV s.cfg = MemDB.write := by
+    rw [hi.cfgFixed]; exact writeV_fixed Cfg.fixed rfl rfl
   have hA : s.fieldAgg fld = ft.aggType := fieldAgg_of_lookup s fld ft hft
   have hpage := curPage_ok s pts hi tick fam ser fld
-  obtain ⟨hinv', hview'⟩ := write_step s.window ft.aggType (curPage s tick fam ser fld) hpage slot v hstep
+  obtain ⟨hinv', hview'⟩ := write_step s.window ft.aggType (curPage s tick fam ser fld) hpage slot v
+  -- a memory database created now gets a created time no range entry has
+  have htick : (s.family fam).mutable_ = none → Map.lookup s.ranges (s.newCreated tick) = none := by
+    intro _
+    have : s.newCreated tick = s.nextTick := by simp [Shard.newCreated, hi.cfgFixed, Cfg.fixed]
+    rw [this]; exact hi.fresh _ (Nat.le_refl _)
   -- the range entry after the write
   obtain ⟨lo', hi', hr', hlo', hhi', hgrow⟩ := storeTimeRange_self s.ranges (curMem s tick fam).created slot
   -- created-time of the target is different from every other live memory database's
@@ -119,17 +137,17 @@ theorem inv_write (s : Shard) (pts : List Point) (hi : Inv s pts)
       rw [hm] at heq
       exact hne (hi.distinct fam fam2 md md2 hm hm2 heq)
     | none =>
-      rw [hm] at heq htick
+      rw [hm] at heq
       simp only at heq
       obtain ⟨lo2, hi2, hr2, _⟩ := hi.pages fam2 md2 hm2
-      rw [← heq] at hr2
-      simp [hr2] at htick
-  refine ⟨hi.wpos, ?_, ?_, ?_⟩
+      rw [← heq, htick hm] at hr2
+      cases hr2
+  refine ⟨by rw [write_cfg]; exact hi.cfgFixed, hi.wpos, ?_, ?_, ?_, ?_⟩
   · -- PagesOK
     intro fam2 md2 hm2
     by_cases hf : fam = fam2
     · subst hf
-      rw [write_family_self] at hm2
+      rw [write_family_self, hwv] at hm2
       simp only [Option.some.injEq] at hm2
       subst hm2
       refine ⟨lo', hi', by rw [write_ranges]; exact hr', ?_⟩
@@ -209,6 +227,30 @@ theorem inv_write (s : Shard) (pts : List Point) (hi : Inv s pts)
       · rw [write_family_ne s tick fam ser fld ft slot v fam1 h1] at hm1
         rw [write_family_ne s tick fam ser fld ft slot v fam2 h2] at hm2
         exact hi.distinct fam1 fam2 md1 md2 hm1 hm2 heq
+  · -- fresh created times
+    intro k hk
+    rw [write_ranges, write_nextTick] at *
+    have hne : (curMem s tick fam).created ≠ k := by
+      intro e
+      unfold curMem at e
+      cases hm : (s.family fam).mutable_ with
+      | some md =>
+        rw [hm] at e hk
+        simp only at e hk
+        obtain ⟨lo0, hi0, hr0, _⟩ := hi.pages fam md hm
+        have := hi.fresh k hk
+        rw [← e, hr0] at this
+        cases this
+      | none =>
+        rw [hm] at e hk
+        simp only at e hk
+        have : s.newCreated tick = s.nextTick := by simp [Shard.newCreated, hi.cfgFixed, Cfg.fixed]
+        omega
+    rw [storeTimeRange_ne _ _ _ _ hne]
+    apply hi.fresh
+    cases hm : (s.family fam).mutable_ with
+    | some md => rw [hm] at hk; exact hk
+    | none => rw [hm] at hk; simp only at hk; omega
   · -- Refines
     intro fam2 ser2 fld2 t
     rw [refCell_append]
@@ -227,7 +269,7 @@ theorem inv_write (s : Shard) (pts : List Point) (hi : Inv s pts)
         have hpv : pageView (s.write tick fam ser fld ft slot v) fam ser fld t =
             memView ft.aggType (MemDB.write s.window ft.aggType (curPage s tick fam ser fld) slot v) t := by
           unfold pageView
-          rw [write_family_self]
+          rw [write_family_self, hwv]
           simp [Map.lookup_upsert_self, write_fieldAgg s tick fam ser fld ft slot v hft, hA]
         rw [hpv, hview' t]
         have hold := hi.refines fam ser fld t
@@ -293,9 +335,8 @@ theorem memView_eq_old_cur {w : Nat} {b : Buf} (A : AggType) (hi : BufInv w b) (
   | true => simp
   | false => simp [curValue_noData hi hd t]
 
-/-- the cell a flush writes for a page equals what the memory query saw. -/
-theorem flushCell_eq_memView {w : Nat} {b : Buf} (A : AggType) (hi : BufInv w b)
-    (hc : AggType.isComm A = true ∨ overlapB b = false) (lo hiR t : Nat)
+/-- the cell a flush writes for a page equals what the memory query saw (every aggregate). -/
+theorem flushCell_eq_memView {w : Nat} {b : Buf} (A : AggType) (hi : BufInv w b) (lo hiR t : Nat)
     (hcov : ∀ t, memView A b t ≠ none → lo ≤ t ∧ t ≤ hiR) :
     (if t < lo ∨ t > hiR then none else cellAt (flushCells A b lo hiR) (t - lo)) = memView A b t := by
   split
@@ -310,19 +351,16 @@ theorem flushCell_eq_memView {w : Nat} {b : Buf} (A : AggType) (hi : BufInv w b)
     rw [cellAt_mergeRange A b lo hiR (t - lo) (by omega)]
     have : lo + (t - lo) = t := by omega
     rw [this, mergeCell_eq, memView_eq_old_cur A hi t]
-    rcases hc with hc | hc
-    · exact ocomb_comm (agg_comm_of_isComm hc) _ _
-    · rcases no_overlap_of_overlapB hc t with h1 | h1 <;> simp [h1]
 
 theorem flush_none (s : Shard) (fam : Nat) (h : (s.family fam).mutable_ = none) : s.flush fam = s := by
   simp only [Shard.flush, h]
 
 theorem flush_some (s : Shard) (fam : Nat) (md : MemDB) (h : (s.family fam).mutable_ = some md) :
-    s.flush fam = Shard.mk s.window
+    s.flush fam = Shard.mk s.cfg s.window
       (Map.upsert s.families fam ⟨none, (match flushMemDB s md with
           | some blk => (s.family fam).files ++ [blk]
           | none => (s.family fam).files), (s.family fam).base⟩)
-      (Map.erase s.ranges md.created) s.fieldTypes s.known := by
+      (Map.erase s.ranges md.created) s.fieldTypes s.known s.nextTick := by
   simp only [Shard.flush, h]
   rfl
 
@@ -332,18 +370,28 @@ theorem flush_some_family_self (s : Shard) (fam : Nat) (md : MemDB) (h : (s.fami
           | some blk => (s.family fam).files ++ [blk]
           | none => (s.family fam).files), (s.family fam).base⟩ := by
   rw [flush_some s fam md h]
-  exact family_upsert_self s fam _ _ _ _
+  exact family_upsert_self s fam _ _ _ _ _
 
 theorem flush_some_family_ne (s : Shard) (fam fam2 : Nat) (md : MemDB) (h : (s.family fam).mutable_ = some md)
     (hne : fam ≠ fam2) : (s.flush fam).family fam2 = s.family fam2 := by
   rw [flush_some s fam md h]
-  exact family_upsert_ne s fam fam2 _ _ _ _ hne
+  exact family_upsert_ne s fam fam2 _ _ _ _ _ hne
 
 theorem flush_some_ranges (s : Shard) (fam : Nat) (md : MemDB) (h : (s.family fam).mutable_ = some md) :
     (s.flush fam).ranges = Map.erase s.ranges md.created := by
   rw [flush_some s fam md h]
 
 theorem flush_fieldTypes (s : Shard) (fam : Nat) : (s.flush fam).fieldTypes = s.fieldTypes := by
+  cases h : (s.family fam).mutable_ with
+  | none => rw [flush_none s fam h]
+  | some md => rw [flush_some s fam md h]
+
+theorem flush_cfg (s : Shard) (fam : Nat) : (s.flush fam).cfg = s.cfg := by
+  cases h : (s.family fam).mutable_ with
+  | none => rw [flush_none s fam h]
+  | some md => rw [flush_some s fam md h]
+
+theorem flush_nextTick (s : Shard) (fam : Nat) : (s.flush fam).nextTick = s.nextTick := by
   cases h : (s.family fam).mutable_ with
   | none => rw [flush_none s fam h]
   | some md => rw [flush_some s fam md h]
@@ -360,17 +408,17 @@ theorem chron_append (f : Family) (blk : Block) :
     (Family.mk none (f.files ++ [blk]) f.base).chron = f.chron ++ [blk] := by
   simp [Family.chron, List.append_assoc]
 
-theorem inv_flush (s : Shard) (pts : List Point) (hi : Inv s pts) (fam : Nat)
-    (hg : goodFlush s fam = true) : Inv (s.flush fam) pts := by
+theorem inv_flush (s : Shard) (pts : List Point) (hi : Inv s pts) (fam : Nat) : Inv (s.flush fam) pts := by
   cases hm : (s.family fam).mutable_ with
   | none => rw [flush_none s fam hm]; exact hi
   | some md =>
     obtain ⟨lo, hiR, hr, hb⟩ := hi.pages fam md hm
+    have hfc : flushCellsV s.cfg = flushCells := by
+      rw [hi.cfgFixed]; exact flushCellsV_fixed Cfg.fixed rfl
     have hfm : flushMemDB s md = some ⟨lo, hiR, (md.pages.map (fun (p : PageKey × Buf) => p.1.2)).eraseDups, s.known,
         md.pages.map (fun (p : PageKey × Buf) => (p.1, flushCells (s.fieldAgg p.1.2) p.2 lo hiR))⟩ := by
-      simp [flushMemDB, hr]
-    simp only [goodFlush, hm, List.all_eq_true] at hg
-    refine ⟨by rw [flush_window]; exact hi.wpos, ?_, ?_, ?_⟩
+      simp [flushMemDB, hr, hfc]
+    refine ⟨by rw [flush_cfg]; exact hi.cfgFixed, by rw [flush_window]; exact hi.wpos, ?_, ?_, ?_, ?_⟩
     · intro fam2 md2 hm2
       by_cases hf : fam = fam2
       · subst hf
@@ -400,6 +448,12 @@ theorem inv_flush (s : Shard) (pts : List Point) (hi : Inv s pts) (fam : Nat)
         · rw [flush_some_family_ne s fam fam1 md hm h1] at hm1
           rw [flush_some_family_ne s fam fam2 md hm h2] at hm2
           exact hi.distinct fam1 fam2 md1 md2 hm1 hm2 heq
+    · intro k hk
+      rw [flush_nextTick] at hk
+      rw [flush_some_ranges s fam md hm]
+      by_cases hkc : md.created = k
+      · rw [hkc]; exact Map.lookup_erase_self _ _
+      · rw [Map.lookup_erase_ne _ _ _ hkc]; exact hi.fresh k hk
     · intro fam2 ser fld t
       unfold storeView
       simp only [flush_fieldAgg]
@@ -425,10 +479,7 @@ theorem inv_flush (s : Shard) (pts : List Point) (hi : Inv s pts) (fam : Nat)
         | some b =>
           simp only [Option.map_some]
           obtain ⟨hbi, hbc⟩ := hb (ser, fld) b hp
-          have hmem := mem_of_lookup md.pages (ser, fld) b hp
-          have hc := hg ((ser, fld), b) hmem
-          simp only [Bool.or_eq_true, Bool.not_eq_true'] at hc
-          exact flushCell_eq_memView (s.fieldAgg fld) hbi hc lo hiR t hbc
+          exact flushCell_eq_memView (s.fieldAgg fld) hbi lo hiR t hbc
       · have := hi.refines fam2 ser fld t
         unfold storeView at this
         unfold pageView at this ⊢
@@ -437,14 +488,13 @@ theorem inv_flush (s : Shard) (pts : List Point) (hi : Inv s pts) (fam : Nat)
         exact this
 
 theorem inv_flushAll (pts : List Point) :
-    ∀ (fams : List Nat) (s : Shard), Inv s pts → goodFlushAll s fams = true → Inv (flushAll s fams) pts := by
+    ∀ (fams : List Nat) (s : Shard), Inv s pts → Inv (flushAll s fams) pts := by
   intro fams
   induction fams with
-  | nil => intro s hi _; exact hi
+  | nil => intro s hi; exact hi
   | cons fam rest ih =>
-    intro s hi hg
-    simp only [goodFlushAll, Bool.and_eq_true] at hg
-    exact ih (s.flush fam) (inv_flush s pts hi fam hg.1) hg.2
+    intro s hi
+    exact ih (s.flush fam) (inv_flush s pts hi fam)
 
 /-! ### compact -/
 
@@ -458,13 +508,13 @@ theorem inv_compact (s : Shard) (pts : List Point) (hi : Inv s pts) (fam : Nat) 
     | some blk =>
       simp only
       have hfs : ∀ fam2, fam ≠ fam2 →
-          (Shard.mk s.window (Map.upsert s.families fam
-            { s.family fam with files := [], base := some blk }) s.ranges s.fieldTypes s.known).family fam2 = s.family fam2 :=
-        fun fam2 h => family_upsert_ne s fam fam2 _ _ _ _ h
-      have hff : (Shard.mk s.window (Map.upsert s.families fam
-            { s.family fam with files := [], base := some blk }) s.ranges s.fieldTypes s.known).family fam =
-            { s.family fam with files := [], base := some blk } := family_upsert_self s fam _ _ _ _
-      refine ⟨hi.wpos, ?_, ?_, ?_⟩
+          (Shard.mk s.cfg s.window (Map.upsert s.families fam
+            { s.family fam with files := [], base := some blk }) s.ranges s.fieldTypes s.known s.nextTick).family fam2 = s.family fam2 :=
+        fun fam2 h => family_upsert_ne s fam fam2 _ _ _ _ _ h
+      have hff : (Shard.mk s.cfg s.window (Map.upsert s.families fam
+            { s.family fam with files := [], base := some blk }) s.ranges s.fieldTypes s.known s.nextTick).family fam =
+            { s.family fam with files := [], base := some blk } := family_upsert_self s fam _ _ _ _ _
+      refine ⟨hi.cfgFixed, hi.wpos, ?_, ?_, hi.fresh, ?_⟩
       · intro fam2 md2 hm2
         by_cases hf : fam = fam2
         · subst hf
@@ -504,7 +554,7 @@ theorem inv_compact (s : Shard) (pts : List Point) (hi : Inv s pts) (fam : Nat) 
 
 theorem inv_known (s : Shard) (pts : List Point) (kn : List Nat) (hi : Inv s pts) :
     Inv { s with known := kn } pts :=
-  ⟨hi.wpos, hi.pages, hi.distinct, hi.refines⟩
+  ⟨hi.cfgFixed, hi.wpos, hi.pages, hi.distinct, hi.fresh, hi.refines⟩
 
 theorem inv_applyOp (s : Shard) (pts : List Point) (hi : Inv s pts) (op : Op) (hg : goodOp s op = true) :
     Inv (applyOp s op) (pts ++ pointOf op) := by
@@ -512,13 +562,13 @@ theorem inv_applyOp (s : Shard) (pts : List Point) (hi : Inv s pts) (op : Op) (h
   | write tick fam ser fld ft slot v => exact inv_write s pts hi tick fam ser fld ft slot v hg
   | flush fam =>
     simp only [applyOp, pointOf, List.append_nil]
-    exact inv_flush s pts hi fam hg
+    exact inv_flush s pts hi fam
   | compact fam =>
     simp only [applyOp, pointOf, List.append_nil]
     exact inv_compact s pts hi fam
   | reopen =>
     simp only [applyOp, pointOf, List.append_nil, Shard.reopen]
-    exact inv_known _ pts [] (inv_flushAll pts _ s hi hg)
+    exact inv_known _ pts [] (inv_flushAll pts _ s hi)
 
 theorem inv_runOps :
     ∀ (ops : List Op) (s : Shard) (pts : List Point), Inv s pts → goodOps s ops = true →
@@ -552,8 +602,8 @@ theorem applyOp_fieldTypes (s : Shard) (op : Op) (hg : goodOp s op = true) :
     (applyOp s op).fieldTypes = s.fieldTypes := by
   cases op with
   | write tick fam ser fld ft slot v =>
-    simp only [goodOp, Bool.and_eq_true, beq_iff_eq] at hg
-    exact write_fieldTypes s tick fam ser fld ft slot v hg.1.1
+    simp only [goodOp, beq_iff_eq] at hg
+    exact write_fieldTypes s tick fam ser fld ft slot v hg
   | flush fam => exact flush_fieldTypes s fam
   | compact fam => exact compact_fieldTypes s fam
   | reopen => simp only [applyOp, Shard.reopen]; exact flushAll_fieldTypes _ s
@@ -574,12 +624,13 @@ theorem runOps_fieldAgg (s : Shard) (ops : List Op) (hg : goodOps s ops = true) 
     (runOps s ops).fieldAgg fld = s.fieldAgg fld := by
   simp [Shard.fieldAgg, runOps_fieldTypes ops s hg]
 
-/-- the empty shard with a registered schema satisfies the invariant. -/
+/-- the empty shard (repaired code) with a registered schema satisfies the invariant. -/
 theorem inv_init (w : Nat) (hw : 0 < w) (sch : List (Nat × FieldType)) :
     Inv { Shard.init w with fieldTypes := sch } [] := by
-  refine ⟨hw, ?_, ?_, ?_⟩
+  refine ⟨rfl, hw, ?_, ?_, ?_, ?_⟩
   · intro fam md hm; simp [Shard.family, Shard.init, Map.lookup, Family.empty] at hm
   · intro fam1 fam2 md1 md2 hm1; simp [Shard.family, Shard.init, Map.lookup, Family.empty] at hm1
+  · intro k _; simp [Shard.init, Map.lookup]
   · intro fam ser fld t
     simp [storeView, pageView, Shard.family, Shard.init, Map.lookup, Family.empty, Family.chron, filesView,
       refCell, streamOf]
